@@ -1341,6 +1341,11 @@ func c03_runC03(e *Env) {
 		"results (module / not found / parse-or-compile error) against the model's `importSeq`. Stream `import`: scripts evaluated with risor.WithLocalImporter over 2–5 such module files " +
 		"(also modules that import others or raise while running): import / from-import inside try, inside a builtin's callback, on a spawned thread, one unguarded; per-step ok/err against the " +
 		"model's results for the Import calls the VM makes. " +
+		"One VM entered many times (stream `life`): 2–7 entries on one vm.NewEmpty() — risor.Eval / EvalCode with WithVM, vm.RunCode, risor.Call with WithVM, vm.RunCode under Background + vm.Get + vm.Call — each under a context of its own kind " +
+		"(Background / TODO / WithValue; WithCancel / WithTimeout / WithDeadline / WithValue of one, cancelled by the host after the entry; cancelled or expired before the entry, code that runs until halted) " +
+		"with code that returns, fails or overruns the operand stack; per entry value / recovered panic / returned error against the model's `lifeSeq`, a Go panic out of the entry point is a violation. " +
+		"Integer-literal initialisers (stream `constexpr`): expression trees over + - * / % << >> & and negation with operands at the edges of int64 and of the shift range (negative and ≥ 64 counts, zero divisors), " +
+		"in const / var / := / expression statement / const inside a function / return value / list item; whole source pipeline, value or error against the model's `declRun`. " +
 		"A case is distinct by its bytes; a source case is non-trivial when the parser got past the first token (parse ok, or the error position is after the first token); " +
 		"script / heap / VM cases are non-trivial when they call at least one builtin or operator on a container"
 	c := &c03Run{e: e}
@@ -1348,8 +1353,10 @@ func c03_runC03(e *Env) {
 	nValid, nMut, nSoup, nBytes, nHeap, nScript := 2500, 6000, 7000, 3500, 1500, 400
 	nSwitchErr := 600
 	nRec, nImporter, nImportScript := 260, 300, 250
+	nLife, nConstExpr := 300, 1500
 	if !e.Quick {
 		nRec, nImporter, nImportScript = 4000, 6000, 5000
+		nLife, nConstExpr = 6000, 60000
 	}
 	if !e.Quick {
 		nValid, nMut, nSoup, nBytes, nHeap, nScript = 30000, 160000, 200000, 80000, 15000, 0
@@ -1367,6 +1374,8 @@ func c03_runC03(e *Env) {
 	c.recursionCases(nRec)
 	c.importerCases(nImporter)
 	c.importScriptCases(nImportScript)
+	c.lifeCases(nLife)
+	c.constExprCases(nConstExpr)
 	c.vmCases()
 	c.deepCases()
 	c.scriptCases(nScript, !e.Quick)
@@ -1571,6 +1580,8 @@ func c03Child(args []string) {
 			resp = c03RunImporter(req.Opt)
 		case "importscript":
 			resp = c03RunImportScript(req.Opt, string(srcB), req.N)
+		case "life":
+			resp = c03RunLife(req.Opt)
 		}
 		resp.ID = req.ID
 		resp.Ms = time.Since(t0).Milliseconds()
